@@ -36,7 +36,7 @@ from dulwich.object_store import (
     PackBasedObjectStore,
     read_packs_file,
 )
-from dulwich.objects import ShaFile
+from dulwich.objects import ZERO_SHA, ShaFile
 from dulwich.pack import (
     Pack,
     PackData,
@@ -345,8 +345,6 @@ class TransportRefsContainer(RefsContainer):
                 return header + f.read(40 - len(SYMREF))
 
     def _remove_packed_ref(self, name):
-        if self._packed_refs is None:
-            return
         # reread cached refs from disk, while holding the lock
 
         self._packed_refs = None
@@ -399,8 +397,22 @@ class TransportRefsContainer(RefsContainer):
         else:
             transport = self.transport
             self._ensure_dir_exists(urlutils.quote_from_bytes(realname))
+        if old_ref is not None and self._current_ref_value(realname) != old_ref:
+            return False
         transport.put_bytes(urlutils.quote_from_bytes(realname), new_ref + b"\n")
         return True
+
+    def _current_ref_value(self, name):
+        """Return the value a ref holds now (loose, else packed), or ZERO_SHA.
+
+        Symbolic references are not followed; the packed refs are read again,
+        as they may have changed since they were cached.
+        """
+        contents = self.read_loose_ref(name)
+        if not contents:
+            self._packed_refs = None
+            contents = self.get_packed_refs().get(name)
+        return contents or ZERO_SHA
 
     def add_if_new(self, name, ref):
         """Add a new reference only if it does not already exist.
@@ -440,6 +452,8 @@ class TransportRefsContainer(RefsContainer):
         :return: True if the delete was successful, False otherwise.
         """
         self._check_refname(name)
+        if old_ref is not None and self._current_ref_value(name) != old_ref:
+            return False
         # may only be packed
         transport = self.worktree_transport if name == b"HEAD" else self.transport
         with contextlib.suppress(NoSuchFile):
